@@ -23,3 +23,10 @@ Definition execute_sql (qa : bool) (lookup : N -> option stmt) (tbl : list (byte
   Ok (interpolate (st_sql st) (map (fun nv => value_of tbl (snd nv)) (ex_params ex)), ex_attrs ex, ex_cursor ex).
 
 Definition one_stmt (id : N) (st : stmt) : N -> option stmt := fun i => if i =? id then Some st else None.
+
+Definition is_float (v : pval) : bool := match v with PF32 _ | PF64 _ => true | _ => false end.
+Definition execute_has_float (qa : bool) (lookup : N -> option stmt) (d : bytes) : bool :=
+  match parse_com_stmt_execute qa lookup d with
+  | Ok (_, ex) => existsb is_float (map snd (ex_params ex))
+  | Err _ => false
+  end.
